@@ -1,3 +1,14 @@
+(* C05 - second invariant, for the progress half (no stranded waiter):
+     N1   somebody counted            -> the lock has an owner (actor or blocker in transit)
+     HX   owner is an actor           -> it is inside the critical section or in its unlock/pop/flag steps
+     PK   suspended                   -> registered in its park
+     QN/Q1/Q2  the queue is duplicate free and holds unflagged live registrations (QP); so does a popped,
+          not yet flagged blocker
+     K1   lock in transit to b        -> b flagged, its owner still waits (or has gone with release set)
+     N2a  lock in transit to b        -> the unparker is still before its token store, or the token has
+          been delivered (Tdeliv: a suspended owner has a resume reason or the token; an owner that will
+          still look at the token finds it)
+     N2b  lock in transit to b, owner gone -> the unparker is still before its take_release *)
 From Coq Require Import List Arith Bool Lia.
 Import ListNotations.
 Require Import MayV.Sync.MutexModel MayV.Sync.MutexInv.
